@@ -308,11 +308,9 @@ def allowed(c, st, cfg_field, peer):
 @contract("gunicorn.http.message:Message.parse_headers", props=("C01", "C06", "C08", "C12", "C15"))
 class ParseHeaders(Contract):
     """preconditions exclude the documented-unsafe modes strip_header_spaces / permit_obsolete_folding"""
-    # cases: 0 tcp/headers 1 tcp/trailers 2 unix/headers 3 unix/trailers. The two from_trailer=False cases need > 6 min each
-    # (three loop analyses of ~2 min; one clause stays undecided within budget): they are NOT run by the checks (DESIGN 5);
-    # the header path of parse_headers is decided by the bounded stand-in parser_diff only. PYVC_ALL_CASES=1 runs all four.
+    # cases: 0 tcp/headers 1 tcp/trailers 2 unix/headers 3 unix/trailers, one task each (the header cases take ~3 min of
+    # solver time each since the discharge works on the goal's cone of influence)
     parallel_cases = 4
-    run_cases = [1, 3]
     weight = 10
 
     def cases(self, env):
@@ -411,6 +409,7 @@ class ParseHeaders(Contract):
         ("headers.lo==0", lambda L: _hdrs(L, lambda seq, a, b: And(seq.lo == 0, seq.hi >= 0))),
         ("headers-in-order", lambda L: _hdrs(L, lambda seq, a, b: _ordered(seq))),
         ("count<=limit", lambda L: _hdrs(L, lambda seq, a, b: seq.hi <= L.fentry.obj(L.self).fields["limit_request_fields"].t)),
+        ("underscore-names-privileged", lambda L: _und_inv(L)),
     ] + [("hdr:" + nm, (lambda k: (lambda L: _hdrs(L, lambda seq, a, b: _each(seq, a, b, k))))(k))
          for k, nm in enumerate(["bounds", "line-end", "name-is-token", "colon-follows-name", "value-bounds",
                                  "only-OWS-trimmed-left", "value-has-no-NUL-CR-LF"])] + [
@@ -442,6 +441,33 @@ def _has_underscore(seq, k):
     q = qvar("q")
     nlo, nhi = hdr_windows(seq, k)[0], hdr_windows(seq, k)[1]
     return z3.Exists([q], And(nlo <= q, q < nhi, Tsel(q) == 95))
+
+
+def _und_inv(L):
+    """every collected header whose name has an underscore was let through by forwarder_headers of a trusted peer or by
+    header_map == dangerous (same formula as the postcondition, over the loop-head list)"""
+    from .cfgmodel import STRSET, CONFIG
+    ex, st0 = L.ex, L.fentry
+    o = L.st.obj(L.headers)
+    if o.sym is None:
+        if o.items:
+            raise KeyError("concrete non-empty")
+        return TRUE
+    seq = o.sym
+    me = st0.obj(L.self)
+    peer = me.fields["peer_addr"]
+    fwd = HObj("AbsStrSet", {"tag": "forwarder_headers", "kind": "set"})
+    allow = HObj("AbsStrSet", {"tag": "forwarded_allow_ips", "kind": "set"})
+    star = STRSET.contains(ex, st0, None, fwd, SStr.lit("*"))
+    trusted = TRUE if not isinstance(peer, STuple) else Or(STRSET.contains(ex, st0, None, allow, SStr.lit("*")),
+                                                           STRSET.contains(ex, st0, None, allow, peer.items[0]))
+    trust = And(Not(ex.truth(st0.locals["from_trailer"], st0)), trusted)
+    cfgo = L.st.obj(me.fields["cfg"])
+    hm = cfgo.fields.get("header_map") or CONFIG.get_attr(ex, L.st, me.fields["cfg"], cfgo, "header_map")
+    k = qvar("k")
+    return z3.ForAll([k], Implies(And(0 <= k, k < seq.hi, _has_underscore(seq, k)),
+                                  Or(ex.equal(hm, SStr.lit("dangerous"), L.st),
+                                     And(trust, Or(star, STRSET.contains(ex, st0, None, fwd, seq.elem(k).items[0]))))))
 
 
 def _lines(L):
